@@ -4,12 +4,24 @@ import traceback
 from harness.common import all_pstr
 
 
+_COMPILERS = {}
+
+
 def impl(case):
     from paulie import PauliString, compile_target, construct_universal_set
     if case["op"] == "compile":
         N, k, t = case["N"], case["k"], case["target"]
         try:
-            seq = compile_target(PauliString(pauli_str=t), k_left=k)
+            if case.get("reuse"):
+                # one compiler object per (N,k) serves every later target of this worker process
+                from paulie import OptimalPauliCompiler, PauliCompilerConfig
+                opc = _COMPILERS.get((N, k))
+                if opc is None:
+                    opc = _COMPILERS[(N, k)] = OptimalPauliCompiler(PauliCompilerConfig(k_left=k, n_total=N))
+                T = PauliString(pauli_str=t)
+                seq = opc.compile(T.get_substring(0, k), T.get_substring(k, N - k))
+            else:
+                seq = compile_target(PauliString(pauli_str=t), k_left=k)
             return {"out": "seq", "seq": [str(s) for s in seq]}
         except RuntimeError as e:
             tb = traceback.extract_tb(e.__traceback__)
@@ -77,4 +89,8 @@ def compile_cases(ck, quick):
                 t = rand_target(N, k, cls)
                 if set(t) != {"I"}:
                     cases.append({"op": "compile", "N": N, "k": k, "target": t})
+    # a third of the cases go through a compiler object that is reused for later targets (compile_target builds a fresh one)
+    for c in cases:
+        if ck.rng.random() < 0.34:
+            c["reuse"] = True
     return cases
